@@ -51,7 +51,7 @@ def run(tier, seed):
         items, idx = [], []
         for ci, c in enumerate(cases):
             eo = c["engines"][eng]
-            if eo.get("err"): continue
+            if eo.get("err") or not c["store"]: continue
             for i in range(c["n"]):
                 lone = eo["lone"][i]
                 calls = [s[1:] for s in c["sched"] if s[0] == i]
